@@ -6,12 +6,12 @@ namespace Qryn.LogQL
 open Qryn Qryn.Sql
 
 theorem supported_spec (q : MetricQuery) (h : supported q = true) :
-    (∃ fn, q.rangeAgg.kind = .lra fn) ∧ aggOk q ∧ 1000000 ∣ q.rangeAgg.durNs ∧ 0 < q.rangeAgg.durNs ∧
+    (∃ fn, q.rangeAgg.kind = .lra fn) ∧ aggOk q ∧ 0 < q.rangeAgg.durNs ∧
       q.rangeAgg.sel.matchers.length ≤ 63 := by
   unfold supported at h
   simp only [Bool.and_eq_true, decide_eq_true_eq] at h
-  obtain ⟨⟨⟨h1, h3⟩, h4⟩, h5⟩ := h
-  refine ⟨?_, trivial, Nat.dvd_of_mod_eq_zero h3, h4, h5⟩
+  obtain ⟨⟨h1, h4⟩, h5⟩ := h
+  refine ⟨?_, trivial, h4, h5⟩
   · cases hk : q.rangeAgg.kind with
     | lra fn => exact ⟨fn, rfl⟩
     | unwrap fn l => rw [hk] at h1; cases h1
@@ -32,10 +32,10 @@ theorem shortcutOkB_spec (o : Oracles) (d : LokiDb) (q : MetricQuery) (h : short
 theorem planMetric_correct (o : Oracles) (c : MCtx) (hn : c.namesOk) (d : LokiDb) (q : MetricQuery)
     (hsup : supported q = true) (hsc : takesShortcut q = true → ShortcutOk o d q) :
     (evalSelA o (d.toDbM c) (planMetric c q)).map normRow = evalMetric o c d q := by
-  obtain ⟨⟨fn, hk⟩, hok, hms, hd, hm⟩ := supported_spec q hsup
+  obtain ⟨⟨fn, hk⟩, hok, hd, hm⟩ := supported_spec q hsup
   cases hs : takesShortcut q with
-  | false => exact planMetric_lra o c hn d q fn hk hs hok hm hms hd
-  | true => exact planMetric_shortcut o c hn d q hs hok hm hms (hsc hs).1 (hsc hs).2
+  | false => exact planMetric_lra o c hn d q fn hk hs hok hm hd
+  | true => exact planMetric_shortcut o c hn d q hs hok hm (hsc hs).1 (hsc hs).2
 
 /-! ### no entry outside the window contributes -/
 /-- two databases with the same index and series tables whose entries inside `[lo, hi)` are the same, in the same order -/
